@@ -159,7 +159,7 @@ class C01(Scenario):
         if pending:
             steps.append({"op": "final", "obj": pending[0], "actor": "D", "t": sch.now})
         return {"spec": sp, "records": [specmod.enc_record(r) for r in recs], "steps": steps, "regime": regime,
-                "vectorised": any(st_["op"] == "fillbatch" for st_ in steps)}
+                "vectorised": any(st_["op"] == "fillbatch" for st_ in steps), "narrow_columns": s.chance(0.25)}
 
     # ------------------------------------------------------------------
     def _expect(self, w, doc, cover, what, step, nmerge):
@@ -245,7 +245,7 @@ class C01(Scenario):
                         w.meta[st["obj"]]["cover"].append((i, specmod.dec_float(x)))
                     continue
                 wa = np.array([float(specmod.dec_float(x)) for x in st["ws"]], dtype=np.float64)
-                o = call(h.fill.numpy, make_box(w.records, st["recs"], st["box"]), wa)
+                o = call(h.fill.numpy, make_box(w.records, st["recs"], st["box"], None, bool(w.case.get("narrow_columns"))), wa)
                 self._lib(o, "fillnumpy", si)
                 for i, x in zip(st["recs"], st["ws"]):
                     w.meta[st["obj"]]["cover"].append((i, specmod.dec_float(x)))
